@@ -165,6 +165,12 @@ fn gen_year(ch: &mut Choices, cfg: &Cfg) -> u16 {
 fn write_number(ch: &mut Choices, out: &mut String, n: u64) {
     if ch.chance(4) {
         out.push('0');
+    } else if ch.chance(1) {
+        // zero-padded to lengths bracketing what the integer types hold in decimal (S-C05-o rejects tokens longer
+        // than 20 characters): the grammar puts no limit on leading zeros
+        let width = ch.pick(&[3usize, 5, 6, 10, 11, 19, 20, 21, 22, 39, 40, 64, 65, 255, 256, 300]);
+        let digits = n.to_string();
+        out.extend(std::iter::repeat('0').take(width.saturating_sub(digits.len())));
     }
     out.push_str(&n.to_string());
 }
